@@ -120,7 +120,7 @@ func (p *Program) instrWrites(fn *ssa.Function, ins ssa.Instruction, w map[strin
 	case *ssa.MakeClosure:
 		// closure bodies are analysed when called
 	case *ssa.Send:
-		w["Chan"] = true
+		w["Chan.len"] = true
 	}
 }
 
@@ -146,7 +146,7 @@ func (p *Program) callWrites(fn *ssa.Function, c *ssa.CallCommon, w map[string]b
 		case "delete":
 			w[mapKeyName(c.Args[0].Type())] = true
 		case "close":
-			w["Chan"] = true
+			w["Chan.closed"] = true
 		}
 	case *ssa.Function:
 		p.calleeWrites(fn, callee, c.Args, w)
